@@ -78,39 +78,39 @@ def load_known(pid):
 # ---------------------------------------------------------------------------------------------
 # property table.  sim: list of (family or None, weight); cases = per shard.
 PROPS = {
-    'C01': dict(num=1, sim=[(None, 3), ('STARVE', 1)], quick=400000, thorough=6000000, flavours_thorough=['gcc_new', 'c11', 'cpp11'],
+    'C01': dict(num=1, sim=[(None, 3), ('STARVE', 1)], quick=400000, thorough=2000000, flavours_thorough=['gcc_new', 'c11', 'cpp11'],
                 rule='a case is one decoded (program, schedule, clock, semaphore-flavour) tuple over LOCK / MON programs and STARVE programs (a victim woken up to 30+ times against bargers doing up to 200 rounds); non-trivial = at least one acquisition went through a slow path (a thread blocked on its semaphore or a CAS on the mutex word failed); distinct = distinct (program hash, realized trace hash)'),
-    'C03': dict(num=3, sim=[(None, 1)], quick=250000, thorough=4000000, flavours_quick=['gcc_new', 'c11', 'cpp11'], flavours_thorough=['gcc_new', 'c11', 'cpp11'],
+    'C03': dict(num=3, sim=[(None, 1)], quick=250000, thorough=1500000, flavours_quick=['gcc_new', 'c11', 'cpp11'], flavours_thorough=['gcc_new', 'c11', 'cpp11'],
                 rule='programs of the MON/LOCK/ONCE/NOTE/CTR/WAITN families with client data attached to every hand-off, all three atomic flavours; oracle = vector-clock race detector crediting only declared memory orders; non-trivial = the execution contains at least one plain access that conflicts with an earlier access of another thread and is ordered only through nsync atomics; distinct = distinct (program hash, realized trace hash)'),
-    'C04': dict(num=4, sim=[('MON', 1)], quick=400000, thorough=6000000, flavours_thorough=['gcc_new', 'c11', 'cpp11'],
+    'C04': dict(num=4, sim=[('MON', 1)], quick=400000, thorough=2000000, flavours_thorough=['gcc_new', 'c11', 'cpp11'],
                 rule='MON programs with cv waiters (plain, timed, cancellable, reader-mode, generic-lock, nsync_wait_n) and signallers/broadcasters inside or after critical sections; non-trivial = a wait on the cv returned (for any reason) between the first and the last step of a wake-up call on that cv that could see it; distinct = distinct (program hash, realized trace hash)'),
-    'C05': dict(num=5, sim=[('MON', 1)], quick=400000, thorough=6000000, flavours_thorough=['gcc_new', 'c11', 'cpp11'],
+    'C05': dict(num=5, sim=[('MON', 1)], quick=400000, thorough=2000000, flavours_thorough=['gcc_new', 'c11', 'cpp11'],
                 rule='MON programs with timed / cancellable cv and mu waits, notes fresh / notified / expiring / child of an expiring parent, reader and writer mode; non-trivial = some wait returned ETIMEDOUT or ECANCELED; distinct = distinct (program hash, realized trace hash)'),
-    'C06': dict(num=6, sim=[('MON', 1)], quick=400000, thorough=6000000, flavours_thorough=['gcc_new', 'c11', 'cpp11'],
+    'C06': dict(num=6, sim=[('MON', 1)], quick=400000, thorough=2000000, flavours_thorough=['gcc_new', 'c11', 'cpp11'],
                 rule='MON programs with 2..4 nsync_mu_wait callers over 6 condition classes; non-trivial = two conditional waiters were queued together and an unlocker evaluated a condition, or a conditional waiter left the queue by timeout/cancel while another was queued; distinct = distinct (program hash, realized trace hash)'),
-    'C13': dict(num=13, sim=[('REF', 1), ('WAITN', 1), ('MON', 2)], quick=300000, thorough=5000000, flavours_thorough=['gcc_new', 'cpp11'],
+    'C13': dict(num=13, sim=[('REF', 1), ('WAITN', 1), ('MON', 2)], quick=300000, thorough=2000000, flavours_thorough=['gcc_new', 'cpp11'],
                 rule='REF programs (reference-count pattern: lock; [timed mu_wait | cv_wait | signal]; last=(--refs==0); unlock; if last free) and WAITN/MON programs in which cv signal/broadcast, note notify and zeroing decrements race nsync_wait_n and cancellable waits whose deadline or other objects can end the wait at any moment; oracle = arena / fiber-stack lifetime tracking; non-trivial = the free happened while another thread was still inside its unlock on the object (REF), a wake-up overlapped a wait on the same object (WAITN), or a wait returned between the first and last step of a wake-up that could see it (MON); distinct = distinct (program hash, realized trace hash)'),
-    'C07': dict(num=7, sim=[('ONCE', 1)], quick=300000, thorough=5000000, flavours_thorough=['gcc_new', 'c11', 'cpp11'],
+    'C07': dict(num=7, sim=[('ONCE', 1)], quick=300000, thorough=2000000, flavours_thorough=['gcc_new', 'c11', 'cpp11'],
                 rule='ONCE programs: 2..4 callers x 4 variants x 3 once objects (two sharing an internal lock), once-functions with scheduling points and nested run_once; non-trivial = a caller arrived while the once word was 1 (function running); distinct = distinct (program hash, realized trace hash)'),
-    'C08': dict(num=8, sim=[('NOTE', 1)], quick=300000, thorough=5000000, flavours_thorough=['gcc_new', 'c11', 'cpp11'],
+    'C08': dict(num=8, sim=[('NOTE', 1)], quick=300000, thorough=2000000, flavours_thorough=['gcc_new', 'c11', 'cpp11'],
                 rule='NOTE programs: trees of <=8 notes (depth<=3, deadlines none/past/soon/later), threads notify / poll / wait / wait_n / cancellable cv wait / create children / read expiry, checked against a model of causes (notify on note or ancestor, chain deadline) over the recorded history and at quiescence; non-trivial = a poll or wait overlapped an in-flight notify of the same note or an ancestor; distinct = distinct (program hash, realized trace hash)'),
-    'C09': dict(num=9, sim=[('NOTEFREE', 1)], quick=300000, thorough=5000000, flavours_thorough=['gcc_new', 'c11', 'cpp11'],
+    'C09': dict(num=9, sim=[('NOTEFREE', 1)], quick=300000, thorough=2000000, flavours_thorough=['gcc_new', 'c11', 'cpp11'],
                 rule='NOTEFREE programs: parent-child-grandchild(+sibling,+second grandchild), 2..4 threads notify / poll / timed wait / new-child / free with a harness gate that lets a note be freed only after the other threads\' operations on that same note completed; oracle = no deadlock/livelock, no access to freed memory, final adoption check; non-trivial = a free overlapped a notify/free/create on a directly related note; distinct = distinct (program hash, realized trace hash)'),
-    'C10': dict(num=10, sim=[('CTR', 1)], quick=300000, thorough=5000000, flavours_thorough=['gcc_new', 'c11', 'cpp11'],
+    'C10': dict(num=10, sim=[('CTR', 1)], quick=300000, thorough=2000000, flavours_thorough=['gcc_new', 'c11', 'cpp11'],
                 rule='CTR programs: initial value 0..3 + prologue increments, 2..4 threads add(-1) / add(0) / value / wait / wait_n; oracle = linearizability of returned values against an integer, wait results against the value history, release at zero; non-trivial = a wait was in progress when the zeroing decrement started, or >=2 waiters were queued at zero; distinct = distinct (program hash, realized trace hash)'),
-    'C11': dict(num=11, sim=[('WAITN', 2), ('MON', 2)], quick=300000, thorough=5000000, flavours_thorough=['gcc_new', 'c11', 'cpp11'],
+    'C11': dict(num=11, sim=[('WAITN', 2), ('MON', 2)], quick=300000, thorough=2000000, flavours_thorough=['gcc_new', 'c11', 'cpp11'],
                 rule='WAITN programs: 1..2 nsync_wait_n callers over 1..5 objects (note / counter / cv / logging probe waitable; stack and heap bookkeeping), actors making objects ready before/during/after registration, deadlines past/future/none, with and without a logging mutex; MON programs with nsync_wait_n on a cv; non-trivial = a make-ready operation overlapped a call that lists the object; distinct = distinct (program hash, realized trace hash)'),
     'C12': dict(num=12, level='fault_enumeration', sim=[('SEM', 1)], quick=60000, thorough=1500000, flavours_thorough=['gcc_new', 'cpp11'],
                 rule='SEM programs: the real nsync_semaphore_futex.c on the modelled futex; one waiter with a generated sequence of P / timed P, 1..2 posters, clock moves and either a generated vector of up to 8 injected futex faults (EINTR, EAGAIN, premature ETIMEDOUT, spurious 0) or, for one case in five, EVERY placement of up to 2 faults over the first 6 futex waits x 3 kinds (154 executions of that program and schedule; evaluations counts executions); non-trivial = a fault was consumed, the waiter blocked, or a CAS on the count failed (post landed between load and futex call); distinct = distinct (program hash incl. fault vector, realized trace hash)'),
     'C14': dict(num=14, sim=[('STARVE', 1)], quick=20000, thorough=400000, flavours_thorough=['gcc_new'],
                 rule='STARVE programs: victim (writer among readers / writer among writers / reader among writers) against 2..4 bargers x 40..200 fresh acquire/release rounds under an adversarial scheduling policy with generated perturbations (3/4 of the cases) or RANDOM/PCT schedules; oracle = number of times the victim goes back to sleep inside one lock call <= 31+2T+2; non-trivial = the victim slept >= 31 times (the long-wait escalation engaged); distinct = distinct (scenario+policy parameters, realized trace hash)'),
-    'C16': dict(num=16, sim=[(None, 1)], quick=150000, thorough=3000000, flavours_thorough=['gcc_new', 'cpp11'],
+    'C16': dict(num=16, sim=[(None, 1)], quick=150000, thorough=1000000, flavours_thorough=['gcc_new', 'cpp11'],
                 rule='LOCK and MON programs with debug-state callers on the same mutex / cv (oracles of C01, C02, C04 unchanged) and DEBUGBUF programs: frozen mutex/cv states with 0..3 queued waiters, all four functions for EVERY buffer size 0..80 with canaries and the output(n) vs output(1024) relation; non-trivial = a debug call ran while some acquisition went through a slow path (schedules) or truncation occurred (inputs); distinct = distinct (program hash, realized trace hash)'),
     'C19': dict(num=19, level='fault_enumeration', sim=[('ALLOC', 1)], quick=60000, thorough=1000000, flavours_thorough=['gcc_new', 'cpp11'],
                 rule='ALLOC scripts (trees of <=6 notes with deadlines none/past/future, <=3 counters, notifies); for each script EVERY allocation from note.c / counter.c call sites is failed in turn (exhaustive per script); evaluations counts executions (script x fault position); non-trivial = a script in which some constructor returned NULL while other objects existed; distinct = distinct scripts'),
-    'C15': dict(num=15, sim=[('MON', 1)], quick=150000, thorough=3000000, flavours_thorough=['gcc_new', 'cpp11'],
+    'C15': dict(num=15, sim=[('MON', 1)], quick=150000, thorough=1000000, flavours_thorough=['gcc_new', 'cpp11'],
                 rule='(simulated twin of C15) MON programs whose past deadlines include instants before the epoch, on the modelled kernel futex (EINVAL for tv_sec<0)'),
-    'C02': dict(num=2, sim=[(None, 3), ('STARVE', 1)], quick=400000, thorough=6000000, flavours_thorough=['gcc_new', 'c11', 'cpp11'],
+    'C02': dict(num=2, sim=[(None, 3), ('STARVE', 1)], quick=400000, thorough=2000000, flavours_thorough=['gcc_new', 'c11', 'cpp11'],
                 rule='LOCK and MON programs, and STARVE programs (one victim against bargers doing up to 200 lock/unlock rounds, then a fresh locker on the idle mutex), x RANDOM/PCT/BYTES/FREEZE/adversary schedules x 3 semaphore flavours; non-trivial = some thread slept on its semaphore inside nsync_mu_lock/rlock and was woken by an unlocker (hand-off happened); distinct = distinct (program hash, realized trace hash)'),
 }
 
@@ -186,7 +186,7 @@ def run_sim_property(pid, tier, seed, embedded=False):
     totals = {}
     hists = {}
     samples = []
-    distinct = set()
+    hash_files = []
     for (sid, fl, fam, cmd, out, hs) in jobs:
         if not os.path.exists(out):
             inconclusive += 1
@@ -209,8 +209,7 @@ def run_sim_property(pid, tier, seed, embedded=False):
         if len(samples) < 4:
             samples += d.get('samples', [])[:1]
         if os.path.exists(hs):
-            raw = open(hs, 'rb').read()
-            distinct.update(struct.unpack(f'<{len(raw) // 8}Q', raw[:len(raw) // 8 * 8]))
+            hash_files.append(hs)
         if not d.get('ok', True) and 'failure' in d:
             f = d['failure']
             if f.get('deterministic', 0) < 3:
@@ -221,13 +220,16 @@ def run_sim_property(pid, tier, seed, embedded=False):
             violations.append(dict(sig=f['sig'], msg=f['msg'], tape=bytes.fromhex(f['tape_hex']), dump=f['dump'], source=f'shard {sid} ({fl})', family=(FAM[fam] if fam else None), trace=f.get('trace_hex', '')))
     for sig, n in hists.get('suppressed_by_known_finding', {}).items():
         known_seen[sig] = known_seen.get(sig, 0) + n
+    # distinct (program hash, trace hash) pairs over all shards, merged outside Python (tens of millions in the thorough tier)
+    rr = subprocess.run([f'{BIN}/simcheck', '--count-distinct'] + hash_files, stdout=subprocess.PIPE, text=True)
+    n_distinct = int(rr.stdout.strip() or 0)
 
     # 3. coverage-guided burst: libFuzzer over the same tapes, feedback from nsync's own edges
     fuzz_stats = dict(processes=0, runs=0, nontrivial_executions=0, suppressed=0, corpus_units_added=0)
     if not violations and cfg.get('fuzz', True):
         so_f = build_sim(pid, 'gcc_new', fuzz=True)
         nf = 4 if tier == 'quick' else NPROC
-        runs = cfg.get('fuzz_runs_quick', 120000) if tier == 'quick' else cfg.get('fuzz_runs_thorough', 6000000)
+        runs = cfg.get('fuzz_runs_quick', 120000) if tier == 'quick' else cfg.get('fuzz_runs_thorough', 2000000)
         fprocs = []
         famlist = [f for (f, w) in cfg['sim'] for _ in range(w)]
         for k in range(nf):
@@ -239,7 +241,7 @@ def run_sim_property(pid, tier, seed, embedded=False):
             if suppress:
                 env['SIMFUZZ_SUPPRESS'] = suppress
             cmd = [f'{BIN}/simfuzz', f'-runs={runs}', f'-seed={derive_seed(seed, pid, k, "fuzz")}', '-max_len=400', '-handle_segv=0', '-handle_bus=0', '-handle_ill=0', '-handle_fpe=0',
-                   '-timeout=60', f'-artifact_prefix={fdir}/art/', '-print_final_stats=1', f'{fdir}/corpus']
+                   '-timeout=60', '-rss_limit_mb=0', f'-artifact_prefix={fdir}/art/', '-print_final_stats=1', f'{fdir}/corpus']
             if os.path.isdir(f'{V}/corpus/{pid}'):
                 cmd.append(f'{V}/corpus/{pid}')
             fprocs.append((k, fam, fdir, subprocess.Popen(cmd, env=env, stdout=open(f'{fdir}/log', 'w'), stderr=subprocess.STDOUT)))
@@ -295,7 +297,7 @@ def run_sim_property(pid, tier, seed, embedded=False):
         return 2
     wall = time.time() - t0
     ev = dict(property_id=pid, tier=tier, seed=seed, level=cfg.get('level', 'exploration'),
-              coverage=dict(evaluations=merged['evaluations'] + regress_n, distinct_nontrivial=len(distinct), rule=cfg['rule'],
+              coverage=dict(evaluations=merged['evaluations'] + regress_n, distinct_nontrivial=n_distinct, rule=cfg['rule'],
                             samples=samples[:4] if samples else ['(no non-trivial sample captured)'], exhaustive=False,
                             regression_tapes_replayed=regress_n, foreign_verdicts=merged['foreign'], inconclusive_step_budget=merged['budget'],
                             inconclusive_shards=inconclusive, excluded_from_strict_oracle=merged['excluded'],
@@ -328,7 +330,7 @@ def run_sim_property(pid, tier, seed, embedded=False):
             print(f'VIOLATION property={pid} replay={path}')
             first = first or path
         return 1
-    print(f"OK property={pid} tier={tier} evaluations={ev['coverage']['evaluations']} distinct_nontrivial={len(distinct)} wall={wall:.1f}s")
+    print(f"OK property={pid} tier={tier} evaluations={ev['coverage']['evaluations']} distinct_nontrivial={n_distinct} wall={wall:.1f}s")
     return 0
 
 
